@@ -23,3 +23,12 @@ Proof.
   - intros H i Hi. apply H. apply nth_In. exact Hi.
   - intros H x Hx. apply In_nth with (d := d) in Hx. destruct Hx as (i & Hi & <-). apply H. exact Hi.
 Qed.
+
+Lemma skipn_skipn {X} (l : list X) : forall x y, skipn x (skipn y l) = skipn (x + y) l.
+Proof.
+  induction l as [|a l IH]; intros x y.
+  - rewrite !skipn_nil. reflexivity.
+  - destruct y.
+    + rewrite Nat.add_0_r. reflexivity.
+    + rewrite Nat.add_succ_r. cbn [skipn]. apply IH.
+Qed.
